@@ -4,6 +4,7 @@
 use vstd::prelude::*;
 use vstd::std_specs::cmp::*;
 use vstd::std_specs::ops::*;
+use vstd::std_specs::iter::IteratorSpec;
 use std::cmp::Ordering;
 use std::ops::{Add, BitAnd, BitOr, BitXor, Div, Mul, Neg, Not, Rem, Shl, Shr, Sub};
 use std::ops::{AddAssign, DivAssign, MulAssign, SubAssign};
